@@ -2,7 +2,7 @@
 import ast
 
 from vstat.loader import AnalysisError
-from vstat.terms import IT, builder, show, SELF, NONE, G, alts, walk, mentions, phi
+from vstat.terms import top_alts, IT, builder, show, SELF, NONE, G, alts, walk, mentions, phi
 from vstat.guards import path_conditions, exception_name
 from vstat.cfg import cfg_of, EXIT
 from vstat.sigs import bind
@@ -175,23 +175,32 @@ def bounds(prog, rep):
     ret = [s for s in cfg_of(f2).all_stmts() if isinstance(s, ast.Return)]
     ok = False
     why = "conversion not recognised"
-    if len(ret) == 1 and isinstance(ret[0].value, (ast.List, ast.Tuple)) and len(ret[0].value.elts) == 2 and all(isinstance(e, ast.Name) for e in ret[0].value.elts):
-        lo_n, up_n = (e.id for e in ret[0].value.elts)
-        loops = [s for s in cfg_of(f2).all_stmts() if isinstance(s, ast.For)]
-        if len(loops) == 1 and b2.term(loops[0].iter, loops[0]) == P("bounds"):
-            lid = f"{loops[0].lineno}:{loops[0].col_offset}"
-            el = ("sub", P("bounds"), ("idx", lid, "iter"))
-            lo, up = IT(el, 0), IT(el, 1)
-            got = {}
-            for st in loops[0].body:
-                if isinstance(st, ast.Expr) and isinstance(st.value, ast.Call) and isinstance(st.value.func, ast.Attribute) and st.value.func.attr == "append":
-                    got[st.value.func.value.id] = b2.term(st.value.args[0], st)
-            def want(v, inf):
-                return (("ifexp", ("not", ("isnone", v)), v, inf), ("ifexp", ("isnone", v), inf, v))
-            ninf = ("neg", G("numpy.inf"))
-            ok = got.get(lo_n) in want(lo, ninf) and got.get(up_n) in want(up, G("numpy.inf"))
-            why = (f"(lower, upper) pairs must become [lowers, uppers] with None -> -inf for lower and None -> +inf for upper; "
-                   f"found lower list <- {show(got.get(lo_n, NONE))[:80]}, upper list <- {show(got.get(up_n, NONE))[:80]}")
+    if len(ret) == 1 and isinstance(ret[0].value, (ast.List, ast.Tuple)) and len(ret[0].value.elts) == 2:
+        # element of each returned list as a function of one (lower, upper) pair: appended in a loop over bounds, or a comprehension over bounds
+        elems = []
+        for e in ret[0].value.elts:
+            te = b2.term(e, ret[0])
+            el = pair = None
+            if te[0] == "comp" and te[1] == "list" and te[4] == P("bounds") and not te[5]:
+                el, pair = te[2], ("sub", P("bounds"), ("idx", te[3], "iter"))
+            elif isinstance(e, ast.Name):
+                loops = [s for s in cfg_of(f2).all_stmts() if isinstance(s, ast.For) and b2.term(s.iter, s) == P("bounds")]
+                aps = [st for lp in loops for st in ast.walk(lp) if isinstance(st, ast.Expr) and isinstance(st.value, ast.Call) and isinstance(st.value.func, ast.Attribute)
+                       and st.value.func.attr == "append" and isinstance(st.value.func.value, ast.Name) and st.value.func.value.id == e.id]
+                if len(loops) == 1 and len(aps) == 1 and not path_conditions(prog, f2, b2).of(aps[0]):
+                    el = b2.term(aps[0].value.args[0], aps[0])
+                    pair = ("sub", P("bounds"), ("idx", f"{loops[0].lineno}:{loops[0].col_offset}", "iter"))
+            elems.append((el, pair))
+        if all(el is not None for el, _ in elems):
+            def conv_ok(el, v, inf):
+                got = set()
+                for lits, a in top_alts(el):
+                    got.add((tuple(lits), a))
+                return got == {((("not", ("isnone", v)),), v), ((("isnone", v),), inf)}
+            (el_lo, pr_lo), (el_up, pr_up) = elems
+            ok = conv_ok(el_lo, IT(pr_lo, 0), ("neg", G("numpy.inf"))) and conv_ok(el_up, IT(pr_up, 1), G("numpy.inf"))
+            why = (f"(lower, upper) pairs must become [lowers, uppers] with None (and only None) -> -inf for lower and None -> +inf for upper; "
+                   f"found lower list <- {show(el_lo)[:90]}, upper list <- {show(el_up)[:90]}")
     rep.check(ok, "C14.bounds", f"{q2}:conversion", f2.where(), "[(lo, up)...] -> [[lo or -inf...], [up or +inf...]]", why)
 
 
